@@ -463,6 +463,10 @@ def main(run):
     for i in run.mine({"quick": 60, "thorough": 1500}[run.tier]):
         k_cli(run, run.case("cli", 10**6 + i, tool=["ape", "rpe"][i % 2],
                             force_options=[["n_to_align"], ["n_to_align", "scale_only"]][(i // 2) % 2]))
+    for i in run.mine({"quick": 24, "thorough": 240}[run.tier]):
+        # the first poses, on which --n_to_align works, are coincident / collinear: refused
+        k_cli(run, run.case("cli", 2 * 10**6 + i, tool=["ape", "rpe"][i % 2], still_start=True, fmt=["tum", "kitti", "euroc"][(i // 2) % 3],
+                            force_options=["n_to_align", "n_small"] + (["scale_only"] if (i // 6) % 2 else ["align"])))
     run.need("concurrent rounds: Umeyama alignment", "evo_ape / evo_rpe runs with alignment options judged", "evo_traj runs with alignment to a reference judged", "requested alignment reaches umeyama_alignment exactly once", "umeyama: proper rotation", "umeyama: optimal vs Horn",
              "umeyama: optimal vs perturbation", "noise-free: rotation reproduced",
              "equivariance: rotation", "exactly degenerate set refused",
